@@ -14,10 +14,23 @@ package main
 // again from what the raw client sent / received, what the raw upstream
 // recorded and what the clock handed out, using fmt/strconv/time.Format/net/url
 // only, following the field descriptions in the doc comment of package logger.
+//
+// Routes may carry the host=dst / host=<name> option and clients may send
+// X-Forwarded-Proto or Forwarded (one of them, with an explicit proto): every
+// $request_* field is judged against the request as the client sent it.
+//
+// A second, statement-level part (chosen per run from the scenario tape): 2-6
+// tasks call Logger.Log of one logger.New(recording writer, format) directly on
+// generated logger.Event values - every shape the doc comments of Event allow,
+// not only those the proxy builds today (absent request / response / URLs, header
+// maps with entries that have no values, odd address forms, zero and extreme
+// times, durations, statuses and sizes). Same reference renderer, same oracle:
+// exactly one intact line per event, no panic.
 
 import (
 	"bytes"
 	"fmt"
+	"math"
 	"net"
 	"net/http"
 	"net/url"
@@ -59,6 +72,7 @@ type c20Route struct {
 	Strip   string `json:"strip,omitempty"`
 	Prepend string `json:"prepend,omitempty"`
 	Query   string `json:"target_query,omitempty"`
+	HostOpt string `json:"host_option,omitempty"` // "", "dst" or the name to send as Host header to the upstream
 }
 
 type c20Scenario struct {
@@ -75,12 +89,14 @@ type c20Scenario struct {
 	STSPreload    bool          `json:"sts_preload,omitempty"`
 	RequestID     string        `json:"request_id_header,omitempty"`
 	HeaderTimeout time.Duration `json:"response_header_timeout,omitempty"`
-	Clients       []h2Client    `json:"clients"`
+	Clients       []h2Client    `json:"clients,omitempty"`
+	Direct        *c20Direct    `json:"direct_logger_calls,omitempty"` // the statement-level part: no proxy, tasks call Logger.Log
 	FineYields    bool          `json:"yields_inside_number_formatter,omitempty"`
 	Stick         int           `json:"stick"`
 
-	epoch time.Time
-	uuids [][24]byte
+	epoch    time.Time
+	uuids    [][24]byte
+	fwdProto map[string]string // request id -> scheme named by the X-Forwarded-Proto / Forwarded header the client sent
 }
 
 // the fields documented in the header comment of logger/logger.go, in that order,
@@ -111,6 +127,9 @@ var c20Queries = []string{"", "", "a=1", "a=1&a=2&b", "x=%2F%20&y=+", "q=a%26b",
 var c20Hosts = []string{"fabio.sim", "www.example.com", "www.example.com:8080", "Mixed.Example.COM", "[2001:db8::f]:9999", "10.1.2.3"}
 var c20Statuses = []int{200, 200, 200, 201, 204, 301, 304, 400, 404, 418, 500, 503, 299, 999}
 var c20Delays = []time.Duration{0, 0, time.Millisecond, 1234567 * time.Nanosecond, 999999999 * time.Nanosecond, time.Second + 1, 1500 * time.Microsecond, 61*time.Second + 500*time.Microsecond, 999500 * time.Nanosecond, 2*time.Hour + 3*time.Nanosecond}
+
+// Forwarded header values a client-side proxy sends (RFC 7239 forwarded-pairs, one element, proto named once)
+var c20FwdForms = []string{"proto=%s", "for=203.0.113.7;proto=%s", "for=203.0.113.7; proto=%s", "for=203.0.113.7;proto=%s;by=203.0.113.1", "proto=%s; for=\"[2001:db8::77]\"", "for=_hidden; httpproto=http/1.0; proto=%s"}
 
 const c20Common = `$remote_host - - [$time_common] "$request" $response_status $response_body_size`
 const c20Combined = c20Common + ` "$header.Referer" "$header.User-Agent"`
@@ -143,10 +162,13 @@ func c20Split(format string) []c20Part {
 	return out
 }
 
-func c20GenFormat(g *simcore.Tape, thorough bool) []c20Part {
+func c20GenFormat(g *simcore.Tape, thorough, direct bool) []c20Part {
 	var parts []c20Part
 	switch g.Intn(8) {
 	case 0:
+		if direct {
+			return c20Split(c20Combined)
+		}
 		return c20Split(c20Common)
 	case 1:
 		return c20Split(c20Combined)
@@ -175,7 +197,11 @@ func c20GenFormat(g *simcore.Tape, thorough bool) []c20Part {
 				parts = append(parts, c20Part{Lit: s})
 			}
 		}
-		if g.Chance(20) {
+		hdr := 20
+		if direct {
+			hdr = 40
+		}
+		if g.Chance(hdr) {
 			parts = append(parts, c20Part{Field: "$header." + simcore.Pick(g, c20LogHeaders)})
 		} else {
 			parts = append(parts, c20Part{Field: simcore.Pick(g, c20Fields)})
@@ -184,10 +210,11 @@ func c20GenFormat(g *simcore.Tape, thorough bool) []c20Part {
 	if g.Chance(30) {
 		parts = append(parts, c20Part{Lit: simcore.Pick(g, []string{"]", "\"", " end", " .", "|"})})
 	}
-	// a line is only defined if something is always printed
+	// a line is only defined if something is always printed (an event handed to the logger directly may lack the
+	// request, the response and the URLs: only literal text is certain to be printed then)
 	solid := false
 	for _, p := range parts {
-		if p.Lit != "" || (p.Field != "" && !strings.HasPrefix(p.Field, "$header.") && !c20MaybeEmpty[p.Field]) {
+		if p.Lit != "" || (!direct && p.Field != "" && !strings.HasPrefix(p.Field, "$header.") && !c20MaybeEmpty[p.Field]) {
 			solid = true
 		}
 	}
@@ -275,6 +302,10 @@ func c20GenRoute(g *simcore.Tape, j int) c20Route {
 	if g.Chance(25) {
 		rt.Query = "tq=1"
 	}
+	// host option: the Host header sent to the upstream is the target's host or a fixed name instead of the client's
+	if g.Chance(35) {
+		rt.HostOpt = simcore.Pick(g, []string{"dst", fmt.Sprintf("vhost%d.internal", j), "dst", fmt.Sprintf("Vhost%d.Internal:8081", j)})
+	}
 	return rt
 }
 
@@ -286,10 +317,15 @@ func c20DefaultPort(scheme string) string {
 }
 
 func c20Gen(g *simcore.Tape, thorough bool) *c20Scenario {
-	sc := &c20Scenario{}
-	sc.Parts = c20GenFormat(g, thorough)
+	sc := &c20Scenario{fwdProto: map[string]string{}}
+	direct := g.Chance(30)
+	sc.Parts = c20GenFormat(g, thorough, direct)
 	for _, p := range sc.Parts {
 		sc.Format += p.Lit + p.Field
+	}
+	if direct {
+		c20GenDirect(g, sc, thorough)
+		return sc
 	}
 	sc.epoch = c20GenEpoch(g, c20HasField(sc.Parts, "$time_unix"))
 	sc.Epoch = sc.epoch.Format("2006-01-02T15:04:05.000000000Z07:00")
@@ -357,6 +393,17 @@ func c20Gen(g *simcore.Tape, thorough bool) *c20Scenario {
 					v = strings.Repeat("L", 900+g.Intn(1500)) + "!"
 				}
 				rq.Headers = append(rq.Headers, h2Header{k, v})
+			}
+			// the client is itself behind a proxy that names the scheme of the original request: exactly one of the two
+			// headers with an explicit proto, the case in which the documented heuristic leaves no choice
+			if g.Chance(25) {
+				proto := simcore.Pick(g, []string{"https", "http"})
+				if g.Bool() {
+					rq.Headers = append(rq.Headers, h2Header{simcore.Pick(g, []string{"X-Forwarded-Proto", "x-forwarded-proto"}), proto})
+				} else {
+					rq.Headers = append(rq.Headers, h2Header{"Forwarded", fmt.Sprintf(simcore.Pick(g, c20FwdForms), proto)})
+				}
+				sc.fwdProto[rq.ID] = proto
 			}
 			if rq.Method == "POST" || rq.Method == "PUT" || rq.Method == "PATCH" {
 				if g.Bool() {
@@ -433,6 +480,9 @@ func c20Table(sc *c20Scenario) string {
 		if rt.Scheme == "https" {
 			opts = append(opts, "tlsskipverify=true")
 		}
+		if rt.HostOpt != "" {
+			opts = append(opts, "host="+rt.HostOpt)
+		}
 		fmt.Fprintf(&b, "route add %s %s %s", rt.Service, rt.Prefix, target)
 		if len(opts) > 0 {
 			fmt.Fprintf(&b, " opts \"%s\"", strings.Join(opts, " "))
@@ -442,25 +492,224 @@ func c20Table(sc *c20Scenario) string {
 	return b.String()
 }
 
+// ---------------------------------------------------------------- scenario of the direct part
+
+type c20DHeader struct {
+	Name string   `json:"name"`             // canonical
+	Vals []string `json:"values,omitempty"` // none: the entry has no values
+	Nil  bool     `json:"nil_value_list,omitempty"`
+}
+
+type c20DURL struct {
+	Scheme string `json:"scheme"`
+	Host   string `json:"host"`
+	Path   string `json:"path"`
+	Query  string `json:"query,omitempty"`
+}
+
+func (u *c20DURL) url() *url.URL {
+	if u == nil {
+		return nil
+	}
+	return &url.URL{Scheme: u.Scheme, Host: u.Host, Path: u.Path, RawQuery: u.Query}
+}
+
+// c20DEvent describes one logger.Event handed to Logger.Log.
+type c20DEvent struct {
+	NoRequest    bool          `json:"no_request,omitempty"`
+	Method       string        `json:"method,omitempty"`
+	URI          string        `json:"request_uri,omitempty"`
+	Proto        string        `json:"proto,omitempty"`
+	Host         string        `json:"host,omitempty"`
+	Remote       string        `json:"remote_addr,omitempty"`
+	NilHeader    bool          `json:"nil_header_map,omitempty"`
+	Headers      []c20DHeader  `json:"headers,omitempty"`
+	NoResponse   bool          `json:"no_response,omitempty"`
+	Status       int           `json:"status"`
+	Size         int64         `json:"size"`
+	RequestURL   *c20DURL      `json:"request_url,omitempty"`
+	UpstreamAddr string        `json:"upstream_addr"`
+	Service      string        `json:"upstream_service"`
+	UpstreamURL  *c20DURL      `json:"upstream_url,omitempty"`
+	End          string        `json:"end"`
+	ZeroEnd      bool          `json:"end_is_zero_time,omitempty"`
+	Zone         string        `json:"zone,omitempty"`
+	ZoneOffset   int           `json:"zone_offset_s,omitempty"`
+	Dur          time.Duration `json:"duration"`
+	ZeroStart    bool          `json:"start_is_zero_time,omitempty"`
+
+	end time.Time
+}
+
+type c20Direct struct {
+	Tasks [][]c20DEvent `json:"tasks"`
+}
+
+// address forms: host:port, host, IPv4[:port], [IPv6]:port, [IPv6], zoned, empty port, empty host, empty, IPv6 without
+// brackets (host / port not judged there), "@" (what net/http reports for a unix socket peer)
+var c20DRemotes = []string{"192.0.2.10:5000", "[2001:db8::c1]:6000", "[fe80::1%eth0]:7000", "192.0.2.10", "[2001:db8::c2]", "", "client.sim:1", "2001:db8::c3", "@", ":6000", "192.0.2.11:"}
+var c20DUpstreams = []string{"up0.sim:8080", "backend0", "198.51.100.7:9000", "198.51.100.7", "[2001:db8::5]:8080", "[2001:db8::a0]", "[fe80::2%eth1]:80", "", "up0.sim:65535", "up0.sim:", ":8080", "2001:db8::b", "sec0.sim:8443"}
+var c20DURLHosts = []string{"up0.sim:8080", "backend0", "198.51.100.7:9000", "[2001:db8::5]:8080", "[2001:db8::a0]", "", "sec0.sim"}
+var c20DSchemes = []string{"http", "https", "ws", "wss", ""}
+var c20DProtos = []string{"HTTP/1.1", "HTTP/1.0", "HTTP/2.0", ""}
+var c20DURIs = []string{"/", "/p0/a?a=1", "*", "", "/p0/a;v=1?x=%2F%20&y=+", "http://www.example.com/absolute?q", "/" + strings.Repeat("seg/", 300)}
+var c20DStatuses = []int{200, 0, 1, 99, 100, 404, 599, 999, 1000}
+var c20DSizes = []int64{0, 1, 1023, 1 << 31, 1<<32 + 5, 1 << 40, 999999999999, 1<<40 - 1}
+var c20DDurs = []time.Duration{0, 1, 999, time.Microsecond, 999999 * time.Nanosecond, 1234567 * time.Nanosecond, 999999999 * time.Nanosecond, time.Second, 61*time.Second + 500*time.Microsecond,
+	2*time.Hour + 3*time.Nanosecond, 24 * 365 * time.Hour, 100 * 24 * 365 * time.Hour, math.MaxInt64 - 1, math.MaxInt64}
+
+func c20GenDURL(g *simcore.Tape, host string) *c20DURL {
+	u := &c20DURL{Scheme: simcore.Pick(g, c20DSchemes), Host: host}
+	u.Path = simcore.Pick(g, []string{"/", "/p0" + simcore.Pick(g, c20Suffixes), ""})
+	u.Query = simcore.Pick(g, c20Queries)
+	return u
+}
+
+func c20GenDirect(g *simcore.Tape, sc *c20Scenario, thorough bool) {
+	unix := c20HasField(sc.Parts, "$time_unix")
+	sc.FineYields = g.Chance(25)
+	sc.Stick = []int{1, 1, 3, 8}[g.Intn(4)]
+	dd := &c20Direct{}
+	sc.Direct = dd
+	names := map[string]bool{}
+	var hdrNames []string
+	for _, n := range c20LogHeaders {
+		if c := http.CanonicalHeaderKey(n); !names[c] && c != "X-Absent" {
+			names[c] = true
+			hdrNames = append(hdrNames, c)
+		}
+	}
+	nt := g.Range(2, 4)
+	if thorough {
+		nt = g.Range(2, 6)
+	}
+	for t := 0; t < nt; t++ {
+		var evs []c20DEvent
+		n := g.Range(1, 4)
+		for k := 0; k < n; k++ {
+			ev := c20DEvent{}
+			host := simcore.Pick(g, c20Hosts)
+			if g.Chance(10) {
+				host = ""
+			}
+			ev.NoRequest = g.Chance(12)
+			if !ev.NoRequest {
+				ev.Method = simcore.Pick(g, c20Methods)
+				if g.Chance(5) {
+					ev.Method = ""
+				}
+				ev.URI = simcore.Pick(g, c20DURIs)
+				ev.Proto = simcore.Pick(g, c20DProtos)
+				ev.Host = host
+				ev.Remote = simcore.Pick(g, c20DRemotes)
+				switch g.Intn(8) {
+				case 0:
+					ev.NilHeader = true
+				case 1: // empty map
+				default:
+					nh := g.Range(1, 5)
+					used := map[string]bool{}
+					for i := 0; i < nh; i++ {
+						h := c20DHeader{Name: simcore.Pick(g, hdrNames)}
+						if used[h.Name] {
+							continue
+						}
+						used[h.Name] = true
+						switch g.Intn(6) {
+						case 0, 1:
+							h.Vals = []string{simcore.Pick(g, c20HdrVals)}
+						case 2:
+							h.Nil = true // r.Header[name] = nil: "do not populate this header"
+						case 3:
+							h.Vals = []string{}
+						case 4:
+							h.Vals = []string{simcore.Pick(g, c20HdrVals), simcore.Pick(g, c20HdrVals), ""}
+						case 5:
+							h.Vals = []string{"", simcore.Pick(g, c20HdrVals)}
+						}
+						if h.Name == "X-Long" && len(h.Vals) > 0 {
+							h.Vals[0] = strings.Repeat("L", 900+g.Intn(1500)) + "!"
+						}
+						ev.Headers = append(ev.Headers, h)
+					}
+				}
+			}
+			ev.NoResponse = g.Chance(10)
+			if !ev.NoResponse {
+				ev.Status = simcore.Pick(g, c20DStatuses)
+				if ev.Status == 1000 {
+					ev.Status = g.Intn(1000)
+				}
+				ev.Size = simcore.Pick(g, c20DSizes)
+				if ev.Size == 999999999999 {
+					ev.Size = int64(g.Intn(1<<30)) << uint(g.Intn(11))
+				}
+			}
+			if !g.Chance(12) {
+				// the URL of the incoming request: its host is the request's host
+				ev.RequestURL = c20GenDURL(g, host)
+			}
+			ev.UpstreamAddr = simcore.Pick(g, c20DUpstreams)
+			ev.Service = simcore.Pick(g, []string{"svc0", "svc-0_web", "My.Service.0", "", "caf\u00e9"})
+			if !g.Chance(12) {
+				ev.UpstreamURL = c20GenDURL(g, simcore.Pick(g, c20DURLHosts))
+			}
+			// times
+			if !unix && g.Chance(10) {
+				ev.ZeroEnd = true // the zero time: 1 January of year 1
+			} else {
+				ev.end = c20GenEpoch(g, unix)
+				z := simcore.Pick(g, c20Zones)
+				ev.Zone, ev.ZoneOffset = z.Name, z.Off
+				ev.Dur = simcore.Pick(g, c20DDurs)
+				if !unix && g.Chance(8) {
+					ev.ZeroStart = true // the longest time span there is
+				}
+				// the start stays within the years the formats can print (and, with unix-epoch fields, where they are defined)
+				floor := time.Date(1, 1, 1, 0, 0, 0, 0, time.UTC)
+				if unix {
+					floor = time.Unix(0, 0)
+				}
+				if max := ev.end.Sub(floor); ev.Dur > max {
+					ev.Dur = max
+				}
+			}
+			ev.End = ev.end.Format("2006-01-02T15:04:05.000000000Z07:00")
+			evs = append(evs, ev)
+		}
+		dd.Tasks = append(dd.Tasks, evs)
+	}
+}
+
 // ---------------------------------------------------------------- observation
 
 type c20Write struct {
-	b    []byte
-	task string
+	b   []byte
+	key string // task that wrote + "#" + number of the Logger.Log call it is in (handler tasks: always 0)
 }
 
 // c20Writer is the access log target: it keeps every Write call apart (the logger issues one per line).
 type c20Writer struct {
 	mu     sync.Mutex
 	writes []c20Write
+	call   map[string]int // direct part: task -> index of the Logger.Log call in progress
 }
 
 func (w *c20Writer) Write(p []byte) (int, error) {
 	t := simhook.CurrentTask()
 	w.mu.Lock()
-	w.writes = append(w.writes, c20Write{b: append([]byte(nil), p...), task: t})
+	w.writes = append(w.writes, c20Write{b: append([]byte(nil), p...), key: fmt.Sprintf("%s#%d", t, w.call[t])})
 	w.mu.Unlock()
 	return len(p), nil
+}
+
+func (w *c20Writer) enter(task string, k int) {
+	w.mu.Lock()
+	if w.call == nil {
+		w.call = map[string]int{}
+	}
+	w.call[task] = k
+	w.mu.Unlock()
 }
 
 // c20Obs is what the harness observes at its own seams (handler wrapper, clock, uuid source).
@@ -479,17 +728,39 @@ type c20Obs struct {
 
 // ---------------------------------------------------------------- reference rendering
 
+// c20Event is a log event as the reference sees it: plain values taken from what the raw client sent / received, the
+// route and the clock (proxy part) or from the generated logger.Event (direct part).
 type c20Event struct {
-	rq      *h2Req
-	rt      *c20Route
+	key  string // c20Write.key of the line that has to describe this event
+	what string // for messages
+
+	hasReq  bool // the event has a request
+	method  string
+	uri     string
+	proto   string
+	hosts   []string // acceptable $request_host
+	header  func(name string) string
+	hdrBare bool // the header map has entries without values
 	remote  string
+	hasURL  bool // the URL of the incoming request is known
 	scheme  string
+	args    string
+	url     string
+	hasResp bool
 	status  int
-	size    int
-	times   []time.Time // instants the clock handed to this request's handler, in order
-	upURI   string      // request-target the raw upstream recorded
-	hasUp   bool
-	ipv6Cli bool
+	size    int64
+	times   []time.Time // start ... end: instants the clock handed to this request's handler, in order
+	upAddr  string      // host[:port] of the upstream as written in the route / the event
+	upDef   string      // default port of the upstream scheme ("" if unknown)
+	hasUp   bool        // the URL sent to the upstream is known
+	upSch   string
+	upURI   string
+	upURL   string
+	service string
+
+	ipv6Cli  bool
+	hostOpt  bool
+	fwdProto bool
 }
 
 func c20URI(rq *h2Req) string {
@@ -526,23 +797,39 @@ func c20Secs(d time.Duration, digits int) []string {
 	n := int64(d)
 	render := func(q int64) string { return fmt.Sprintf("%d.%0*d", q/perSec, digits, q%perSec) }
 	out := []string{render(n / unit)}
-	if n%unit != 0 {
+	if n%unit != 0 && n <= math.MaxInt64-unit {
 		out = append(out, render((n+unit/2)/unit))
 	}
 	return c20Dedup(out)
 }
 
+// what may stand for a value the event does not have (the documentation does not say; fabio prints nothing)
+var c20Absent = []string{"", "-"}
+var c20AbsentNum = []string{"", "-", "0"}
+
+// c20SplitAddr is the reference for "host of" / "port of" an address "with or without a port": net.SplitHostPort where
+// it applies, a bracketed IPv6 literal or a colon-free host without port otherwise. An IPv6 literal written without
+// brackets is ambiguous (Go's own convention requires the brackets): both ways of reading it are accepted.
+func c20SplitAddr(s string) (hosts, ports []string, ipv6, noPort bool) {
+	if h, p, err := net.SplitHostPort(s); err == nil {
+		return []string{h}, []string{p}, strings.Contains(h, ":"), p == ""
+	}
+	if len(s) >= 2 && s[0] == '[' && s[len(s)-1] == ']' {
+		return []string{s[1 : len(s)-1]}, []string{""}, true, true
+	}
+	if i := strings.LastIndexByte(s, ':'); i >= 0 {
+		return []string{s, s[:i]}, []string{"", s[i+1:]}, true, true
+	}
+	return []string{s}, []string{""}, false, true
+}
+
 // c20Render returns the acceptable renderings of one documented field for an event.
 func c20Render(field string, ev *c20Event) []string {
-	rq := ev.rq
 	if name, ok := strings.CutPrefix(field, "$header."); ok {
-		// request http header: the (first) value the client sent under that name, without the optional whitespace around it
-		for _, h := range rq.Headers {
-			if http.CanonicalHeaderKey(h.K) == http.CanonicalHeaderKey(name) {
-				return []string{strings.Trim(h.V, " \t")}
-			}
+		if !ev.hasReq {
+			return c20Absent
 		}
-		return []string{""}
+		return []string{ev.header(name)}
 	}
 	eachTime := func(f func(t time.Time) string) []string {
 		var out []string
@@ -552,34 +839,55 @@ func c20Render(field string, ev *c20Event) []string {
 		return c20Dedup(out)
 	}
 	layout := func(l string) []string { return eachTime(func(t time.Time) string { return t.Format(l) }) }
+	opt := func(has bool, v string) []string {
+		if !has {
+			return c20Absent
+		}
+		return []string{v}
+	}
 	switch field {
 	case "$remote_addr":
-		return []string{ev.remote}
+		return opt(ev.hasReq, ev.remote)
 	case "$remote_host":
-		h, _, _ := net.SplitHostPort(ev.remote)
-		return []string{h}
+		if !ev.hasReq {
+			return c20Absent
+		}
+		h, _, _, _ := c20SplitAddr(ev.remote)
+		return h
 	case "$remote_port":
-		_, p, _ := net.SplitHostPort(ev.remote)
-		return []string{p}
+		if !ev.hasReq {
+			return c20Absent
+		}
+		_, p, _, _ := c20SplitAddr(ev.remote)
+		return p
 	case "$request":
-		return []string{rq.Method + " " + c20URI(rq) + " HTTP/1.1"}
+		if !ev.hasReq {
+			return []string{"", "-", "  "}
+		}
+		return []string{ev.method + " " + ev.uri + " " + ev.proto}
 	case "$request_args":
-		return []string{rq.Query}
+		return opt(ev.hasURL, ev.args)
 	case "$request_host":
-		return []string{rq.Host}
+		return ev.hosts
 	case "$request_method":
-		return []string{rq.Method}
+		return opt(ev.hasReq, ev.method)
 	case "$request_scheme":
-		return []string{ev.scheme}
+		return opt(ev.hasURL, ev.scheme)
 	case "$request_uri":
-		return []string{c20URI(rq)}
+		return opt(ev.hasReq, ev.uri)
 	case "$request_url":
-		return []string{ev.scheme + "://" + rq.Host + c20URI(rq)}
+		return opt(ev.hasURL, ev.url)
 	case "$request_proto":
-		return []string{"HTTP/1.1"}
+		return opt(ev.hasReq, ev.proto)
 	case "$response_body_size":
-		return []string{strconv.Itoa(ev.size)}
+		if !ev.hasResp {
+			return c20AbsentNum
+		}
+		return []string{strconv.FormatInt(ev.size, 10)}
 	case "$response_status":
+		if !ev.hasResp {
+			return c20AbsentNum
+		}
 		return []string{strconv.Itoa(ev.status)}
 	case "$response_time_ms", "$response_time_us", "$response_time_ns":
 		d := ev.times[len(ev.times)-1].Sub(ev.times[0])
@@ -602,25 +910,27 @@ func c20Render(field string, ev *c20Event) []string {
 		return layout("02/Jan/2006:15:04:05 -0700")
 	case "$upstream_addr":
 		// "host:port of upstream server": for a target written without port both the bare host and host:default-port are accepted
-		if ev.rt.NoPort {
-			return []string{ev.rt.Host, ev.rt.Key}
+		if _, _, _, noPort := c20SplitAddr(ev.upAddr); noPort && ev.upDef != "" && !strings.HasSuffix(ev.upAddr, ":") {
+			return []string{ev.upAddr, ev.upAddr + ":" + ev.upDef}
 		}
-		return []string{ev.rt.Host}
+		return []string{ev.upAddr}
 	case "$upstream_host":
-		return []string{(&url.URL{Host: ev.rt.Host}).Hostname()}
+		h, _, _, _ := c20SplitAddr(ev.upAddr)
+		return h
 	case "$upstream_port":
-		if ev.rt.NoPort {
-			return []string{"", c20DefaultPort(ev.rt.Scheme)}
+		_, p, _, noPort := c20SplitAddr(ev.upAddr)
+		if noPort && ev.upDef != "" {
+			p = append(p, ev.upDef)
 		}
-		return []string{(&url.URL{Host: ev.rt.Host}).Port()}
+		return p
 	case "$upstream_request_scheme":
-		return []string{ev.rt.Scheme}
+		return opt(ev.hasUp, ev.upSch)
 	case "$upstream_request_uri":
-		return []string{ev.upURI}
+		return opt(ev.hasUp, ev.upURI)
 	case "$upstream_request_url":
-		return []string{ev.rt.Scheme + "://" + ev.rt.Host + ev.upURI}
+		return opt(ev.hasUp, ev.upURL)
 	case "$upstream_service":
-		return []string{ev.rt.Service}
+		return []string{ev.service}
 	}
 	return nil
 }
@@ -738,17 +1048,22 @@ func c20Blame(line string, alts [][]string, isField func(i int) bool) int {
 }
 
 // c20Sig names the kind of a field mismatch without random data.
-func c20Sig(sc *c20Scenario, ev *c20Event, field string) string {
+func c20Sig(ev *c20Event, field string) string {
+	last := ev.times[len(ev.times)-1]
+	_, off := last.Zone()
 	switch {
 	case field == "":
 		return "literal-text"
 	case strings.HasPrefix(field, "$header."):
+		if ev.hdrBare {
+			return "$header/entries-without-values"
+		}
 		return "$header"
 	case strings.HasPrefix(field, "$time_"):
 		switch {
-		case sc.ZoneOffset != 0:
+		case off != 0:
 			return field + "/clock-in-local-zone"
-		case sc.epoch.Year() > 9999:
+		case last.Year() > 9999:
 			return field + "/five-digit-year"
 		}
 	case strings.HasPrefix(field, "$remote_"):
@@ -757,13 +1072,25 @@ func c20Sig(sc *c20Scenario, ev *c20Event, field string) string {
 		}
 	case field == "$upstream_addr" || field == "$upstream_host" || field == "$upstream_port":
 		q := ""
-		if ev.rt.IPv6 {
+		_, _, v6, noPort := c20SplitAddr(ev.upAddr)
+		if v6 {
 			q += "/ipv6"
 		}
-		if ev.rt.NoPort {
+		if noPort {
 			q += "/no-port"
 		}
 		return field + q
+	case field == "$request_host" || field == "$request_url" || field == "$request_scheme":
+		q := ""
+		if ev.hostOpt && field != "$request_scheme" {
+			q += "/route-with-host-option"
+		}
+		if ev.fwdProto && field != "$request_host" {
+			q += "/client-sent-forwarded-proto"
+		}
+		return field + q
+	case (field == "$response_status" || field == "$response_body_size") && !ev.hasResp:
+		return field + "/no-response"
 	}
 	return field
 }
@@ -782,6 +1109,10 @@ func c20ClipN(s string, n int) string {
 func runC20(r *simcore.Run) {
 	sc := c20Gen(r.Gen, r.Thorough())
 	r.SetSample(sc)
+	if sc.Direct != nil {
+		runC20Direct(r, sc)
+		return
+	}
 
 	cfg := &config.Config{}
 	cfg.Proxy.Strategy = "rnd"
@@ -931,7 +1262,6 @@ func runC20(r *simcore.Run) {
 	}
 
 	var events []*c20Event
-	evByTask := map[string]*c20Event{}
 	for ci := range sc.Clients {
 		for qi := range sc.Clients[ci].Reqs {
 			rq := &sc.Clients[ci].Reqs[qi]
@@ -979,10 +1309,38 @@ func runC20(r *simcore.Run) {
 				}
 			}
 			task := reqTask[rq.ID]
-			ev := &c20Event{rq: rq, rt: rt, remote: obs.remote[rq.ID], scheme: "http", status: res.Status, size: len(res.Body), times: obs.clock[task]}
+			// the request as the client sent it, the route as written, the response as the client received it
+			ev := &c20Event{key: task + "#0", hasReq: true, method: rq.Method, uri: c20URI(rq), proto: "HTTP/1.1", hosts: []string{rq.Host},
+				remote: obs.remote[rq.ID], hasURL: true, scheme: "http", args: rq.Query, hasResp: true, status: res.Status, size: int64(len(res.Body)),
+				times: obs.clock[task], upAddr: rt.Host, upDef: c20DefaultPort(rt.Scheme), hasUp: true, upSch: rt.Scheme, service: rt.Service,
+				hostOpt: rt.HostOpt != ""}
+			ev.what = fmt.Sprintf("request %s %s (id %s) from %s via %s://%s", rq.Method, c20ClipN(c20URI(rq), 60), rq.ID, ev.remote, rt.Scheme, rt.Host)
+			if rt.HostOpt != "" {
+				ev.what += " opts host=" + rt.HostOpt
+			}
+			ev.header = func(name string) string {
+				// request http header: the (first) value the client sent under that name, without the optional whitespace around it
+				for _, h := range rq.Headers {
+					if http.CanonicalHeaderKey(h.K) == http.CanonicalHeaderKey(name) {
+						return strings.Trim(h.V, " \t")
+					}
+				}
+				return ""
+			}
 			if sc.TLS {
 				ev.scheme = "https"
 			}
+			if p := sc.fwdProto[rq.ID]; p != "" {
+				// the proxy in front of fabio names the scheme of the original request (exactly one of X-Forwarded-Proto /
+				// Forwarded, explicit proto): "derives the request scheme ... first from headers and then from the connection"
+				ev.scheme, ev.fwdProto = p, true
+				ev.what += ", client-sent forwarding header says " + p
+				r.Probe("client_sent_forwarded_proto")
+			}
+			if rt.HostOpt != "" {
+				r.Probe("route_with_host_option")
+			}
+			ev.url = ev.scheme + "://" + rq.Host + c20URI(rq)
 			if h, _, err := net.SplitHostPort(ev.remote); err != nil {
 				r.Trouble("request %s never reached the handler wrapper (remote %q)", rq.ID, ev.remote)
 				return
@@ -990,8 +1348,9 @@ func runC20(r *simcore.Run) {
 				ev.ipv6Cli = strings.Contains(h, ":")
 			}
 			if len(seen) > 0 {
-				ev.upURI, ev.hasUp = seen[0].RequestURI, true
+				ev.upURI = seen[0].RequestURI
 			}
+			ev.upURL = rt.Scheme + "://" + rt.Host + ev.upURI
 			if len(ev.times) < 2 {
 				if r.Failed() {
 					continue // the handler died before it read the clock again; already recorded
@@ -1000,7 +1359,6 @@ func runC20(r *simcore.Run) {
 				return
 			}
 			events = append(events, ev)
-			evByTask[task] = ev
 
 			// formatters on the request path, on the values that occurred
 			if sc.RequestID != "" && len(seen) > 0 {
@@ -1035,12 +1393,25 @@ func runC20(r *simcore.Run) {
 		}
 	}
 
+	c20Judge(r, sc, events, w)
+	if obs.strays > 0 {
+		r.Probe("clock_read_outside_handler")
+	}
+}
+
+// c20Judge compares what was written to the access log with the reference renderings of the events that have to be
+// described: one intact line per event, every line the rendering of its event.
+func c20Judge(r *simcore.Run, sc *c20Scenario, events []*c20Event, w *c20Writer) {
+	evByKey := map[string]*c20Event{}
+	for _, ev := range events {
+		evByKey[ev.key] = ev
+	}
 	// lines: every Write call is exactly one line
 	w.mu.Lock()
 	writes := w.writes
 	w.mu.Unlock()
 	var lines []string
-	var lineTask []string
+	var lineKey []string
 	for _, wr := range writes {
 		s := string(wr.b)
 		r.Tracef("log %s", strconv.Quote(c20Clip(s)))
@@ -1049,7 +1420,7 @@ func runC20(r *simcore.Run) {
 			continue
 		}
 		lines = append(lines, s)
-		lineTask = append(lineTask, wr.task)
+		lineKey = append(lineKey, wr.key)
 	}
 	// reference parts per event
 	alts := make([][][]string, len(events))
@@ -1116,7 +1487,7 @@ func runC20(r *simcore.Run) {
 		if matchOfLine[i] >= 0 {
 			continue
 		}
-		ev := evByTask[lineTask[i]]
+		ev := evByKey[lineKey[i]]
 		j := -1
 		if ev != nil {
 			j = indexOfEvent(events, ev)
@@ -1133,12 +1504,12 @@ func runC20(r *simcore.Run) {
 				if at < len(sc.Parts) {
 					field = sc.Parts[at].Field
 				}
-				sig := c20Sig(sc, ev, field)
+				sig := c20Sig(ev, field)
 				if at > len(sc.Parts) {
 					sig = "trailing-bytes"
 				}
-				r.Fail("field", sig, "request %s %s (id %s) from %s via %s://%s, status %d, %d body bytes, clock %v: logged line\n  %s\ndiffers from the reference at part %d (%s), acceptable there: %q (format %q)",
-					ev.rq.Method, c20ClipN(c20URI(ev.rq), 60), ev.rq.ID, ev.remote, ev.rt.Scheme, ev.rt.Host, ev.status, ev.size, ev.times, strconv.Quote(c20Clip(l)), at, field+sc.partLit(at), want, c20Clip(sc.Format))
+				r.Fail("field", sig, "%s, status %d, %d body bytes, clock %v: logged line\n  %s\ndiffers from the reference at part %d (%s), acceptable there: %q (format %q)",
+					ev.what, ev.status, ev.size, ev.times, strconv.Quote(c20Clip(l)), at, field+sc.partLit(at), want, c20Clip(sc.Format))
 				continue
 			}
 		}
@@ -1150,16 +1521,163 @@ func runC20(r *simcore.Run) {
 	}
 	for j, ev := range events {
 		if matchOfEvent[j] < 0 && !blamed[j] {
-			r.Fail("lines", "missing", "request %s %s (id %s) was answered with status %d but no line of the access log describes it (%d lines, %d answered requests, format %q)",
-				ev.rq.Method, c20ClipN(c20URI(ev.rq), 60), ev.rq.ID, ev.status, len(writes), len(events), c20Clip(sc.Format))
+			r.Fail("lines", "missing", "%s was answered with status %d but no line of the access log describes it (%d lines, %d answered requests, format %q)",
+				ev.what, ev.status, len(writes), len(events), c20Clip(sc.Format))
 		}
 	}
 	if len(writes) > len(events) {
 		r.Fail("lines", "extra", "%d requests were answered with a status but the access log has %d writes (format %q)", len(events), len(writes), c20Clip(sc.Format))
 	}
-	if obs.strays > 0 {
-		r.Probe("clock_read_outside_handler")
+}
+
+// ---------------------------------------------------------------- the direct part
+
+// c20Build turns the description into the logger.Event and the reference's view of it.
+func c20Build(de *c20DEvent, key string) (*logger.Event, *c20Event) {
+	le := &logger.Event{UpstreamAddr: de.UpstreamAddr, UpstreamService: de.Service, RequestURL: de.RequestURL.url(), UpstreamURL: de.UpstreamURL.url()}
+	ev := &c20Event{key: key, upAddr: de.UpstreamAddr, service: de.Service}
+	ev.what = "event " + key + " handed to Logger.Log"
+	switch {
+	case de.ZeroEnd:
+		le.Start, le.End = time.Time{}, time.Time{}
+	default:
+		le.End = de.end
+		if de.ZoneOffset != 0 {
+			le.End = le.End.In(time.FixedZone(de.Zone, de.ZoneOffset))
+		}
+		le.Start = le.End.Add(-de.Dur)
+		if de.ZeroStart {
+			le.Start = time.Time{}
+		}
 	}
+	ev.times = []time.Time{le.Start, le.End}
+	if !de.NoRequest {
+		rq := &http.Request{Method: de.Method, RequestURI: de.URI, Proto: de.Proto, Host: de.Host, RemoteAddr: de.Remote}
+		hm := map[string][]string{}
+		if !de.NilHeader {
+			rq.Header = http.Header{}
+			for _, h := range de.Headers {
+				switch {
+				case h.Nil:
+					rq.Header[h.Name] = nil
+					ev.hdrBare = true
+				default:
+					rq.Header[h.Name] = append([]string{}, h.Vals...)
+					if len(h.Vals) == 0 {
+						ev.hdrBare = true
+					}
+				}
+				hm[h.Name] = h.Vals
+			}
+		}
+		le.Request = rq
+		ev.hasReq, ev.method, ev.uri, ev.proto, ev.remote = true, de.Method, de.URI, de.Proto, de.Remote
+		// request http header: the first value under that name (case-insensitive), nothing if there is none
+		ev.header = func(name string) string {
+			if v := hm[http.CanonicalHeaderKey(name)]; len(v) > 0 {
+				return v[0]
+			}
+			return ""
+		}
+		if h, _, v6, _ := c20SplitAddr(de.Remote); len(h) > 0 {
+			ev.ipv6Cli = v6
+		}
+		ev.hosts = []string{de.Host}
+	}
+	if u := le.RequestURL; u != nil {
+		ev.hasURL, ev.scheme, ev.args, ev.url = true, u.Scheme, u.RawQuery, u.String()
+		if de.NoRequest {
+			// no request to take the host header from: the host of the request URL, or nothing
+			ev.hosts = append([]string{u.Host}, c20Absent...)
+		}
+	} else if de.NoRequest {
+		ev.hosts = c20Absent
+	}
+	if !de.NoResponse {
+		le.Response = &http.Response{StatusCode: de.Status, ContentLength: de.Size}
+		ev.hasResp, ev.status, ev.size = true, de.Status, de.Size
+	}
+	if u := le.UpstreamURL; u != nil {
+		ev.hasUp, ev.upSch, ev.upURI, ev.upURL = true, u.Scheme, u.RequestURI(), u.String()
+		if u.Scheme == "http" || u.Scheme == "https" {
+			ev.upDef = c20DefaultPort(u.Scheme)
+		}
+	}
+	return le, ev
+}
+
+func runC20Direct(r *simcore.Run, sc *c20Scenario) {
+	d := simcore.NewDriver(r)
+	defer d.Finish()
+	d.Stick = sc.Stick
+	d.Sim.Activate("logger")
+	if !sc.FineYields {
+		d.Sim.Activate("-logger:atoi")
+	}
+	w := &c20Writer{}
+	lg, err := logger.New(w, sc.Format)
+	if err != nil {
+		r.Fail("format", "rejected", "format %q over documented fields was rejected: %v", sc.Format, err)
+		return
+	}
+	r.Probe("direct_logger_part")
+	r.Tracef("direct part: %d tasks", len(sc.Direct.Tasks))
+	type call struct {
+		le *logger.Event
+		ev *c20Event
+	}
+	nt := len(sc.Direct.Tasks)
+	calls := make([][]call, nt)
+	entered := make([]int, nt)
+	returned := make([]int, nt)
+	for t := range sc.Direct.Tasks {
+		t := t
+		name := fmt.Sprintf("log%d", t)
+		for k := range sc.Direct.Tasks[t] {
+			le, ev := c20Build(&sc.Direct.Tasks[t][k], fmt.Sprintf("%s#%d", name, k))
+			calls[t] = append(calls[t], call{le, ev})
+			if ev.hdrBare {
+				r.Probe("header_entry_without_values")
+			}
+			if !ev.hasReq || !ev.hasResp || !ev.hasURL || !ev.hasUp {
+				r.Probe("event_without_request_response_or_url")
+			}
+		}
+		d.Sim.Spawn(name, func() {
+			for k, c := range calls[t] {
+				w.enter(name, k)
+				entered[t] = k + 1
+				lg.Log(c.le)
+				returned[t] = k + 1
+			}
+		})
+	}
+	overlap := 0
+	d.Invariant = func() {
+		if d.Sim.InFunc("logger", "") >= 2 {
+			overlap++
+		}
+	}
+	if !d.Run(400000, func() bool { return d.Sim.Pending() == 0 }) {
+		r.Trouble("logging tasks did not finish: %v", d.Sim.TaskStates())
+		return
+	}
+	if overlap > 0 {
+		r.Probe("two_tasks_inside_logger")
+	}
+	// every call that returned has to have produced its line; a call that did not return has panicked (recorded by the task layer)
+	var events []*c20Event
+	for t := range calls {
+		r.Tracef("task log%d: %d of %d calls returned", t, returned[t], len(calls[t]))
+		if returned[t] != len(calls[t]) && !r.Failed() {
+			r.Trouble("task log%d stopped after %d of %d calls without a recorded panic", t, returned[t], len(calls[t]))
+			return
+		}
+		for k := 0; k < returned[t]; k++ {
+			events = append(events, calls[t][k].ev)
+		}
+	}
+	c20Judge(r, sc, events, w)
 }
 
 func (sc *c20Scenario) partLit(i int) string {
